@@ -101,6 +101,9 @@ func kconf(v hv.Val) cluster_table_conf.SubClusterBackend {
 func implHist(top hv.L) hv.Val {
 	brr := bal_slb.NewBalanceRR("sub")
 	brr.Init(kconf(top[1]))
+	// slow start is enabled, but sticky selection must not run checkSlowStart ("slow start is not supported when
+	// session sticky is enabled"): backends added by Update keep their configured weight
+	brr.SetSlowStart(3600)
 	out := hv.L{}
 	for _, ov := range hv.AsList(top[2]) {
 		op := hv.AsList(ov)
